@@ -158,6 +158,15 @@ def stmt_removal_assert(entry: int, ctx: int, above: int, trail: int, eol: int, 
     return fin(_stmt(7, 3, entry, ctx, above, trail, eol, tabs))
 
 
+def stmt_removal_layouts(entry: int, ctx: int, above: int, trail: int, eol: int, tabs: int) -> bool:
+    """Same family: remove-future-imports with the removed name first / last in a two-name import, fix-assert-tuple on
+    a tuple whose elements span several lines, fix-empty-sequence-comparison on a parenthesised comparison inside an
+    arithmetic expression.
+    post: _
+    """
+    return fin(_stmt(10, 5, entry, ctx, above, trail, eol, tabs))
+
+
 def _sast_compiles(names, which: int, style: int, args: int, decoy: int, layout: int) -> bool:
     from harness import hardsast
 
@@ -226,11 +235,11 @@ SPEC = {
         "LazyLogging.make_args_for_plus / process_concat / is_str_concat",
         "UseGenerator.leave_Call",
         "the real pipelines of the three E2 codemods (output must parse)",
-        "statement family: the complete real pipelines of remove-debug-breakpoint, unused-imports, remove-module-global, break-or-continue-out-of-loop, exception-without-raise, fix-assert-tuple, remove-assertion-in-pytest-raises, remove-future-imports (removal sentinels, flattening, libcst's `pass` fallback) over block contexts x comments x CRLF x tabs",
+        "statement family: the complete real pipelines of remove-debug-breakpoint, unused-imports, remove-module-global, break-or-continue-out-of-loop, exception-without-raise, fix-assert-tuple, remove-assertion-in-pytest-raises, remove-future-imports, fix-empty-sequence-comparison (removal sentinels, flattening, libcst's `pass` fallback) over block contexts x comments x CRLF x tabs",
         "detector-driven hardening family: the complete real transformer chains of 16 semgrep-detected codemods with one result placed on the call (output must compile)",
     ],
     "bounds": {
-        "quick": "literal content <= 2 characters over {a, double quote, single quote, backslash, newline, %, {, space}; 4 quote styles x 5 prefixes; one or two literal pieces; E2 quick grammar; statement family: 10 triggers x <= 8 block contexts x 4 leading-trivia shapes x trailing comment x LF/CRLF x spaces/tabs; detector-driven family: 16 codemods x 4 import styles x 3-4 argument lists x 3 surroundings x 3 layouts",
+        "quick": "literal content <= 2 characters over {a, double quote, single quote, backslash, newline, %, {, space}; 4 quote styles x 5 prefixes; one or two literal pieces; E2 quick grammar; statement family: 15 triggers x <= 8 block contexts x 4 leading-trivia shapes x trailing comment x LF/CRLF x spaces/tabs; detector-driven family: 16 codemods x 4 import styles x 3-4 argument lists x 3 surroundings x 3 layouts",
         "thorough": "content <= 3 characters; E2 thorough grammar",
     },
     "assumptions": [
@@ -247,6 +256,7 @@ SPEC = {
         Xh("stmt_removal_debug", 400, 800),
         Xh("stmt_removal_flow", 400, 800),
         Xh("stmt_removal_assert", 400, 800),
+        Xh("stmt_removal_layouts", 400, 800),
         Xh("sast_family_compiles_a", 400, 800),
         Xh("sast_family_compiles_b", 400, 800),
         Xh("sast_family_compiles_c", 400, 800),
